@@ -143,6 +143,11 @@ func GenDoc(r *Rand, o *DocOpts) Doc {
 					in.Meta = append(in.Meta, PairT{Key: k, Value: genMetaText(r, to)})
 				}
 			}
+			if r.Chance(1, 8) {
+				for _, k := range []string{"zeta", "alpha", "Mid", "9th", "foo"}[r.Intn(3):] {
+					in.Meta = append(in.Meta, PairT{Key: k, Value: genMetaText(r, to)})
+				}
+			}
 			if r.Chance(1, 5) {
 				// keys crd does not know (they are carried along and ignored)
 				k := Pick(r, []string{"2f", "51", "58", "59", "00", "01", "02", "05", "06", "07", "7f", "2F", "ff", "03", "section", "take", "cue", "copyright", "bpm", "key", "vel", "mtr", "TXT", ""})
